@@ -13,9 +13,13 @@ import (
 )
 
 // Op is one call. K: w(rite) r(ead) n(ReadN) s(kip) a(t) c(lear). N is the argument of n/s/a.
+// For ReadN the destination is the window scratch[F : F+N] of an array of F+N+B elements: F elements lie in front of it
+// and B elements of spare capacity behind it (cap(dst) = N+B). F = B = 0 is a destination made to measure.
 type Op struct {
 	K string `json:"k"`
 	N int    `json:"n,omitempty"`
+	F int    `json:"f,omitempty"`
+	B int    `json:"b,omitempty"`
 }
 
 // Case is a capacity plus a call sequence.
@@ -29,6 +33,9 @@ type Info struct {
 	Wrap, Full, Empty, BigFill, Extreme bool
 	BigFull                             bool // a buffer of more than 300 slots was written to the brim
 	Congruent                           bool // an out-of-range argument agreed with an in-range one modulo 2^16, 2^31 or 2^32
+	Window                              bool // a ReadN destination was a window of a larger array (elements in front and/or spare capacity behind)
+	WindowShort                         bool // ... with spare capacity behind it while the buffer held more than len(dst) elements
+	WindowZero                          bool // ... of length 0 with capacity, on a non-empty buffer
 }
 
 // Run executes the case against the real buffer and the slice model.
@@ -115,11 +122,23 @@ func run(c Case, info *Info) *vstat.Violation {
 			if CongruentInRange(ln, len(model)+1) {
 				info.Congruent = true
 			}
-			dst := make([]*int, ln)
-			for j := range dst {
-				dst[j] = sentinel
+			// the destination is a window of the scratch array; everything outside the window is a canary
+			front, back := max(op.F, 0), max(op.B, 0)
+			scratch := make([]*int, front+ln+back)
+			for j := range scratch {
+				scratch[j] = sentinel
 			}
+			dst := scratch[front : front+ln] // cap(dst) = ln+back
 			want := min(ln, len(model))
+			if front > 0 || back > 0 {
+				info.Window = true
+				if back > 0 && len(model) > ln {
+					info.WindowShort = true
+					if ln == 0 {
+						info.WindowZero = true
+					}
+				}
+			}
 			if want > 0 && rpos+want > n1-1 && rpos > wpos {
 				info.Wrap = true
 			}
@@ -127,6 +146,12 @@ func run(c Case, info *Info) *vstat.Violation {
 				info.BigFill = true
 			}
 			got := rb.ReadN(dst)
+			if front > 0 || back > 0 {
+				where = fmt.Sprintf("%s dst=scratch[%d:%d] of %d", where, front, front+ln, len(scratch))
+			}
+			if got > len(dst) {
+				return vstat.V("ring:readn-count-exceeds-dst", "%s: ReadN returned %d although len(dst)=%d (cap(dst)=%d, Len=%d)", where, got, len(dst), cap(dst), len(model))
+			}
 			if got != want {
 				return vstat.V("ring:readn-count", "%s: ReadN returned %d want min(%d,%d)=%d", where, got, ln, len(model), want)
 			}
@@ -138,6 +163,15 @@ func run(c Case, info *Info) *vstat.Violation {
 			for j := want; j < ln; j++ {
 				if dst[j] != sentinel {
 					return vstat.V("ring:readn-wrote-beyond", "%s: dst[%d] was overwritten although only %d elements were read", where, j, want)
+				}
+			}
+			for j := 0; j < front+back; j++ {
+				k := j // indices of the canaries: 0..front-1, then front+ln..
+				if j >= front {
+					k = j + ln
+				}
+				if scratch[k] != sentinel {
+					return vstat.V("ring:readn-wrote-outside-dst", "%s: scratch[%d], which lies outside the destination window, was overwritten with %s", where, k, ps(scratch[k]))
 				}
 			}
 			model = model[want:]
@@ -257,6 +291,9 @@ func (c Case) Hash() uint64 {
 	for _, o := range c.Ops {
 		mix(uint64(o.K[0]))
 		mix(uint64(int64(o.N)))
+		if o.F != 0 || o.B != 0 {
+			mix(uint64(int64(o.F))<<32 ^ uint64(int64(o.B)) ^ 0x9e3779b97f4a7c15)
+		}
 	}
 	return h
 }
@@ -288,6 +325,15 @@ func (i Info) Classes() []string {
 	if i.Congruent {
 		c = append(c, "argument_congruent_to_in_range_value_mod_2^16_2^31_2^32")
 	}
+	if i.Window {
+		c = append(c, "readn_into_window_of_larger_array")
+	}
+	if i.WindowShort {
+		c = append(c, "readn_into_window_with_spare_capacity_shorter_than_Len")
+	}
+	if i.WindowZero {
+		c = append(c, "readn_into_zero_length_window_with_capacity_on_non_empty_buffer")
+	}
 	return c
 }
 
@@ -308,11 +354,15 @@ func Alphabet(cp int) []Op {
 }
 
 // WideAlphabet is Alphabet plus the out-of-range arguments that agree with the smallest in-range one (index 0, count 1)
-// in their low 16, 31 or 32 bits.
+// in their low 16, 31 or 32 bits, plus ReadN destinations of every length 0..cap+1 that are windows of a larger array:
+// one element in front, and enough spare capacity behind the window to hold a full buffer.
 func WideAlphabet(cp int) []Op {
 	a := Alphabet(cp)
 	for _, m := range Moduli {
 		a = append(a, Op{K: "s", N: m + 1}, Op{K: "a", N: m})
+	}
+	for n := 0; n <= cp+1; n++ {
+		a = append(a, Op{K: "n", N: n, F: 1, B: cp + 2 - n})
 	}
 	return a
 }
